@@ -278,6 +278,13 @@ func (s *Session) run(ctx context.Context, calldepth int, funcv *bigslice.FuncVa
 		location = fmt.Sprintf("%s:%d", file, line)
 		defer typecheck.Location(file, line)
 	}
+	for i, arg := range args {
+		// A nil *Result has no tasks to depend on; it cannot be used as
+		// a slice, neither here nor by workers.
+		if result, ok := arg.(*Result); ok && result == nil {
+			return nil, fmt.Errorf("%s: argument %d is a nil *Result", location, i)
+		}
+	}
 	var (
 		inv        execInvocation
 		slice      bigslice.Slice
